@@ -23,7 +23,10 @@ RULE = ("(a) Hypothesis RuleBasedStateMachine: rules new_solver(problem recipe, 
         "was checked again. (c) pairs of solvers holding ONE SolverParameters object (half of the parameter sets push "
         "the first solver to the float resolution of the curve coordinate, some refine), driven by every order of "
         "{Solve A, Solve B, step A, step B}: evaluation logs and results must equal those of the same calls with a "
-        "parameters object per solver. Distinct = distinct rule sequence / (problems, interleaving).")
+        "parameters object per solver. (d) two solvers with different parameter sets built on ONE problem object "
+        "(generated or shipped), same call orders, in a third of the cases one solver's own evolvent is re-targeted to a "
+        "sub-box in between: each solver's evaluations and results must equal those it has with "
+        "a problem object of its own. Distinct = distinct rule sequence / (problems, interleaving).")
 ASSUMPTIONS = [
     "solo references are computed in the same process (other solvers exist but are idle)",
     "steps are capped at 40 trials per solver; Solve on a stepped solver continues to max(steps, n*)",
@@ -38,7 +41,8 @@ NP_ERR = dict(_np.geterr())
 
 def plan(tier):
     return [("machine", 12, (360 if tier == "quick" else 7200) // 12), ("interleavings", 4, 3 if tier == "quick" else 40),
-            ("shared_pairs", 4, (400 if tier == "quick" else 8000) // 4)]
+            ("shared_pairs", 4, (400 if tier == "quick" else 8000) // 4),
+            ("same_problem", 4, (400 if tier == "quick" else 8000) // 4)]
 
 
 @st.composite
@@ -428,12 +432,100 @@ def shared_pairs(ctx):
     hyp_run(ctx, pair_cases(), pair_body, ctx.budget, shrink_calls=60)
 
 
-SUBCHECKS = {"machine": machine, "interleavings": interleavings, "shared_pairs": shared_pairs}
+# ------------------------------------------------------------------ two solvers on ONE problem object
+
+@st.composite
+def same_problem_cases(draw):
+    """One problem (generated or shipped) and two parameter sets: the same problem object is handed to two solvers
+    (the usual way to compare parameter settings on one problem)."""
+    if draw(st.integers(0, 3)) == 0:
+        rec = draw(gen.shipped_recipe(grishagin=True))
+        n = {"hill": 1, "shekel": 1, "grishagin": 2}.get(rec["shipped"][0], 2)
+    else:
+        rec = dict(draw(gen.problem_recipe(dims=(1, 2, 3, 4), styles=True)), density=10)
+        n = rec["n"]
+    ps = []
+    for _ in range(2):
+        q = {"r": draw(gen.r_values), "eps": draw(gen.eps_values(min(n, 3), 10, cheap=False)),
+             "itersLimit": draw(st.sampled_from([5, 20, 40]))}
+        if draw(st.integers(0, 2)) == 0:
+            q["refine"] = True
+        if draw(st.integers(0, 3)) == 0:
+            q["rebound"] = True
+        ps.append(q)
+    ops = ["solveA", "solveB", "stepA", "stepB", "stepA", "stepB"]
+    if draw(st.integers(0, 2)) == 0:
+        # solver A is re-targeted to a sub-box through its own evolvent (Evolvent.SetBounds): A's business only
+        ops.append("zoomA")
+    ops = draw(st.permutations(ops))
+    return {"recipe": rec, "pa": ps[0], "pb": ps[1], "ops": list(ops), "k": draw(st.sampled_from([1, 3, 7]))}
+
+
+def drive_same_problem(case, shared):
+    pa, pb = case["pa"], case["pb"]
+    a = Run(case["recipe"], pa, record=False, refine=bool(pa.get("refine")))
+    b = Run(case["recipe"], pb, record=False, refine=bool(pb.get("refine")), problem_obj=a.problem if shared else None)
+    runs = {"A": a, "B": b}
+    done = {"A": False, "B": False}
+    logs = {"A": [], "B": []}
+    for op in case["ops"]:
+        who = op[-1]
+        r = runs[who]
+        k0 = len(r.problem.log)
+        try:
+            if op == "zoomA":
+                lo = [float(v) for v in r.problem.lowerBoundOfFloatVariables]
+                hi = [float(v) for v in r.problem.upperBoundOfFloatVariables]
+                r.solver.evolvent.SetBounds([u + 0.25 * (v - u) for u, v in zip(lo, hi)],
+                                            [v - 0.125 * (v - u) for u, v in zip(lo, hi)])
+            elif op.startswith("solve"):
+                r.solve()
+                done[who] = True
+            elif not done[who]:
+                r.step(case["k"])
+        except Exception as e:
+            if "outside of interval" not in str(e):
+                raise
+            done[who] = True
+        logs[who] += [(y, v) for _, y, v in r.problem.log[k0:]]
+    out = {}
+    for who, r in runs.items():
+        sol = r.results()
+        out[who] = (logs[who], (best_of(sol), sol.numberOfGlobalTrials, sol.numberOfLocalTrials) if logs[who] else None)
+    bounds = ([float(v) for v in a.problem.lowerBoundOfFloatVariables], [float(v) for v in a.problem.upperBoundOfFloatVariables])
+    return out, bounds
+
+
+def same_problem_body(case):
+    own, b0 = drive_same_problem(case, shared=False)
+    shared, b1 = drive_same_problem(case, shared=True)
+    if b0 != b1:
+        fail("two solvers built on one problem object, calls %r: the problem's box is %r afterwards, %r when each "
+             "solver has a problem object of its own" % (case["ops"], b1, b0))
+    for who in ("A", "B"):
+        if shared[who] != own[who]:
+            fail("two solvers built on ONE problem object, calls %r (k=%d): solver %s makes %d evaluations / returns "
+                 "%r; with a problem object of its own (same problem) %d / %r" %
+                 (case["ops"], case["k"], who, len(shared[who][0]), shared[who][1], len(own[who][0]), own[who][1]))
+    return True, ["same-problem:" + ("shipped" if "shipped" in case["recipe"] else "generated") +
+                  (":refine" if case["pa"].get("refine") or case["pb"].get("refine") else "") +
+                  (":one-solver-re-targeted" if "zoomA" in case["ops"] else "")]
+
+
+def same_problem(ctx):
+    hyp_run(ctx, same_problem_cases(), same_problem_body, ctx.budget, shrink_calls=60)
+
+
+SUBCHECKS = {"machine": machine, "interleavings": interleavings, "shared_pairs": shared_pairs,
+             "same_problem": same_problem}
 
 
 def replay(kind, case):
     if kind == "shared_pairs":
         pair_body(case)
+        return
+    if kind == "same_problem":
+        same_problem_body(case)
         return
     if kind == "machine":
         replay_steps(case["steps"])
